@@ -208,6 +208,7 @@ func exitChecks() int { return verif_ghost_int("exitChecks") }
 //@   trusted
 //@   modifies c.loweringState.unreachable, c.loweringState.values
 //@ iface (b ssa.Builder) AllocateBasicBlock() ssa.BasicBlock
+//@   ensures r0 != nil
 //@   modifies nothing
 // (the pooled argument lists: assumed to touch only the pool)
 //@ func (i ssa.Values) Append(p *wazevoapi.VarLengthPool[ssa.Value], items ...ssa.Value) ssa.Values
@@ -249,7 +250,7 @@ func miscOpAt(c *Compiler) wasm.OpcodeMisc {
 //@   decide-branches
 
 //@ case bulk:memory.fill (c *Compiler) lowerCurrentOpcode()
-//@   requires c.ssaBuilder != nil && c.loweringState.pc >= 0 && c.loweringState.pc+1 < len(c.wasmFunctionBody) && c.wasmFunctionBody[c.loweringState.pc] == wasm.OpcodeMiscPrefix && miscOpAt(c) == wasm.OpcodeMiscMemoryFill && c.loweringState.pc < 1<<39 && c.loweringState.pc+2 < len(c.wasmFunctionBody)
+//@   requires c.ssaBuilder != nil && c.loweringState.pc >= 0 && c.loweringState.pc+1 < len(c.wasmFunctionBody) && c.wasmFunctionBody[c.loweringState.pc] == wasm.OpcodeMiscPrefix && miscOpAt(c) == wasm.OpcodeMiscMemoryFill && c.loweringState.pc < 1<<39 && c.loweringState.pc+2 < len(c.wasmFunctionBody) && c.wasmFunctionTyp != nil
 //@   requires !c.loweringState.unreachable && len(c.loweringState.values) >= 3 && oobChecks() >= 0 && oobChecks() < 1<<40
 //@   ensures[checks-the-region] oobChecks() == old(oobChecks())+1
 //@   nosafety keep-pre
@@ -270,7 +271,7 @@ func miscOpAt(c *Compiler) wasm.OpcodeMisc {
 //@   decide-branches
 
 //@ case bulk:table.fill (c *Compiler) lowerCurrentOpcode()
-//@   requires c.ssaBuilder != nil && c.loweringState.pc >= 0 && c.loweringState.pc+1 < len(c.wasmFunctionBody) && c.wasmFunctionBody[c.loweringState.pc] == wasm.OpcodeMiscPrefix && miscOpAt(c) == wasm.OpcodeMiscTableFill && c.loweringState.pc < 1<<39 && c.loweringState.pc+3 < len(c.wasmFunctionBody) && c.wasmFunctionBody[c.loweringState.pc+2] < 0x80
+//@   requires c.ssaBuilder != nil && c.loweringState.pc >= 0 && c.loweringState.pc+1 < len(c.wasmFunctionBody) && c.wasmFunctionBody[c.loweringState.pc] == wasm.OpcodeMiscPrefix && miscOpAt(c) == wasm.OpcodeMiscTableFill && c.loweringState.pc < 1<<39 && c.loweringState.pc+3 < len(c.wasmFunctionBody) && c.wasmFunctionBody[c.loweringState.pc+2] < 0x80 && c.wasmFunctionTyp != nil
 //@   requires !c.loweringState.unreachable && len(c.loweringState.values) >= 3 && oobChecks() >= 0 && oobChecks() < 1<<40
 //@   ensures[checks-the-region] oobChecks() == old(oobChecks())+1
 //@   nosafety keep-pre
@@ -301,7 +302,7 @@ func b2i(b bool) int {
 //@   modifies nothing
 
 //@ func (c *Compiler) callListenerAfter()
-//@   requires c.ssaBuilder != nil && c.wasmFunctionTyp != nil && afterCalls() >= 0 && afterCalls() < 1<<40
+//@   requires c.ssaBuilder != nil && c.wasmFunctionTyp != nil
 //@   ensures[calls-the-after-trampoline-of-this-function-type] gg("lastOp") == int(ssa.OpcodeCallIndirect) && ssa.IsLoaded(ssa.Value(gg("lastV"))) && ssa.LoadedAt(ssa.Value(gg("lastV"))) == uint64(uint32(c.wasmFunctionTypeIndex)*8) && ssa.IsLoaded(ssa.LoadedFrom(ssa.Value(gg("lastV")))) && ssa.LoadedAt(ssa.LoadedFrom(ssa.Value(gg("lastV")))) == uint64(c.offset.AfterListenerTrampolines1stElement.U32()) && ssa.LoadedFrom(ssa.LoadedFrom(ssa.Value(gg("lastV")))) == c.moduleCtxPtrValue
 //@   ensures[no-bounds-check-involved] oobChecks() == old(oobChecks())
 //@   records afterCalls = old(afterCalls()) + 1
@@ -309,7 +310,7 @@ func b2i(b bool) int {
 //@   nosafety keep-pre
 
 //@ func (c *Compiler) insertJumpToBlock(args ssa.Values, targetBlk ssa.BasicBlock)
-//@   requires c.ssaBuilder != nil && targetBlk != nil && c.wasmFunctionTyp != nil && afterCalls() >= 0 && afterCalls() < 1<<40
+//@   requires c.ssaBuilder != nil && targetBlk != nil && c.wasmFunctionTyp != nil
 //@   ensures[after-listener-before-leaving-the-function] afterCalls() == old(afterCalls()) + b2i(verif_ghost_flag("retBlk", targetBlk) && c.needListener)
 //@   ensures[no-bounds-check-involved] oobChecks() == old(oobChecks())
 //@   modifies ghost("*"), obj(c.listenerSignatures[c.wasmFunctionTyp][1])
@@ -321,6 +322,6 @@ func b2i(b bool) int {
 
 //@ case return (c *Compiler) lowerCurrentOpcode()
 //@   requires c.ssaBuilder != nil && c.wasmFunctionTyp != nil && c.loweringState.pc >= 0 && c.loweringState.pc < len(c.wasmFunctionBody) && c.wasmFunctionBody[c.loweringState.pc] == wasm.OpcodeReturn
-//@   requires !c.loweringState.unreachable && c.needListener && afterCalls() >= 0 && afterCalls() < 1<<40
+//@   requires !c.loweringState.unreachable && c.needListener
 //@   ensures[after-listener-before-the-return] afterCalls() == old(afterCalls()) + 1
 //@   nosafety keep-pre
